@@ -9,18 +9,20 @@ def sc(b,mdo): return [{"set":"b%d"%b,"file":"pwr/constants.go","ident":"BlockSi
   {"set":"b%d"%b,"file":"pwr/overlay/overlay_writer.go","ident":"overlaySameThreshold","value":"2"}]
 scale=sc(2,5)+sc(4,8)
 Q=["quick","thorough"];T=["thorough"]
-shapes=list(range(0,20))+[32,33]; swaps=[20,21,22,23,24,25,26,27,28,29,30,31]
+shapes=list(range(0,20))+[32,33]; swaps=[20,21,22,23,24,25,26,27,28,29,30,31]; deep=[34,35,36,37]
 H=[{"name":"H_witness","tiers":Q,"expect":"violation","bounds":"vacuity witness"}]
 H.append({"name":"H_inplace","tiers":Q,"scale":"b2","bounds":"B=2; old build: files A (3), B (5), sub/C (2), dir, symlink; 22 path-level relations (unchanged, patched, renamed, swap, chains, rotation, 1->2 and 1->3 duplication with/without the original, patched+renamed, kept+duplicated onto a path whose old file is renamed away or dropped (longer old content), grow/shrink/empty, dirs and symlinks added/removed/retargeted, all deleted); every iteration order of the commit phase's maps; generic-position contents",
   "param_sets":[{"a":3,"b":5,"c":2,"shape":s,"orders":1} for s in shapes]})
-H.append({"name":"H_inplace","tiers":Q,"scale":"b2","bounds":"kind swaps (file->dir, empty dir->file, file renamed with a symlink left in its place, symlink->file, symlink-to-directory->real directory (3 variants), non-empty directory->file / ->symlink with its content deleted, moved elsewhere, or moved to the symlink target); every iteration order of the commit phase maps",
+H.append({"name":"H_inplace","tiers":Q,"scale":"b2","bounds":"kind swaps (file->dir, empty dir->file, file renamed with a symlink left in its place, symlink->file, symlink-to-directory->real directory (3 variants), non-empty directory->file / ->symlink with its content deleted, moved elsewhere, or moved to the symlink target; content two levels below a directory that becomes a symlink or a file); every iteration order of the commit phase maps",
   "param_sets":[{"a":3,"b":5,"c":2,"shape":s,"orders":1} for s in swaps]})
+H.append({"name":"H_inplace","tiers":Q,"scale":"b2","bounds":"content two levels below a directory that becomes a symlink (to the renamed directory holding it, unchanged or replaced; or to another directory) or a file; insertion order, and every map order for the first",
+  "param_sets":[{"a":3,"b":5,"c":2,"shape":s,"orders":0} for s in deep]+[{"a":3,"b":5,"c":2,"shape":34,"orders":1}]})
 H.append({"name":"H_inplace","tiers":Q,"scale":"b2","bounds":"every rename fails (wharf's BOWL_DEBUG_BROKEN_RENAME switch, as with a stage folder on another device): the bowl falls back to copy + remove; renames, swaps, chains, rotation, duplications and the kind swaps that move files; insertion order",
   "param_sets":[{"a":3,"b":5,"c":2,"shape":s,"orders":0,"brokenrename":1} for s in (1,2,3,4,5,6,14,16,17,18,19,20,22,23,25,28,30,31)]})
 H.append({"name":"H_inplace","tiers":T,"scale":"b4","bounds":"B=4; sizes (5,9,4) and (0,4,1); all shapes; all map orders","max_seconds":1500,
-  "param_sets":[{"a":a,"b":b,"c":c,"shape":s,"orders":1} for (a,b,c) in ((5,9,4),(0,4,1)) for s in shapes+swaps]})
+  "param_sets":[{"a":a,"b":b,"c":c,"shape":s,"orders":1} for (a,b,c) in ((5,9,4),(0,4,1)) for s in shapes+swaps+deep]})
 H.append({"name":"H_inplace","tiers":T,"scale":"b2","bounds":"B=2; sizes (0,0,0),(1,2,3),(4,4,4); all shapes; all map orders","max_seconds":1500,
-  "param_sets":[{"a":a,"b":b,"c":c,"shape":s,"orders":1} for (a,b,c) in ((0,0,0),(1,2,3),(4,4,4)) for s in shapes+swaps]})
+  "param_sets":[{"a":a,"b":b,"c":c,"shape":s,"orders":1} for (a,b,c) in ((0,0,0),(1,2,3),(4,4,4)) for s in shapes+swaps+deep]})
 json.dump({"property":"C02","package":"c02","scale":scale,"harnesses":H,
  "stubs":["os -> in-memory file system model","md5/protobuf models","Go map iteration order -> explored exhaustively during Commit","deterministic goroutine schedule"],
  "outside":["case-insensitive file systems","pairs of relations beyond the listed shapes","block size 64 KiB / overlay window 128 KiB (declared values scaled)"]},open("config.json","w"),indent=1)
